@@ -1137,7 +1137,7 @@ func main() {
 		rc = 1
 	}
 
-	writeEvidence(*tier, seed, digest, info, ii, recs, cov, det, buildS, simWall, time.Since(t0).Seconds(), nviol, workers)
+	writeEvidence(*tier, seed, digest, info, ii, recs, cov, det, buildS, simWall, time.Since(t0).Seconds(), nviol, workers, len(jobs))
 	if rc == 0 {
 		fmt.Printf("C19 held on everything explored (%d simulated runs, %d with mid-operation pre-emption)\n", len(recs), countPreempted(recs))
 	}
